@@ -36,7 +36,7 @@ fn value_program(rng: &mut Rng) -> (String, bool) {
     let (body, callable) = match rng.below(16) {
         0 => (d, false),
         1 => ("[1b, 2b, 255b, 0b]".to_string(), false),
-        2 => ("[1.5, 2.25, 1.0e300]".to_string(), false),
+        2 => ("[1.5, 2.25, 1000000.5, -0.0]".to_string(), false),
         3 => (format!("[\"a\", \"bc\", (string.append \"x\" \"{}\")]", "yz".repeat(rng.below(20))), false),
         4 => ("[[1], [2, 3], [4, 5, 6]]".to_string(), false),
         5 => (format!("[{{ a = 1, b = {} }}, {{ a = 2, b = {} }}]", d, d), false),
@@ -106,6 +106,8 @@ struct Slot {
     encoding: String,
     origin: usize,
     callable: bool,
+    /// the value is an array of two unevaluated lazy values
+    lazy_array: bool,
 }
 
 struct World {
@@ -253,7 +255,11 @@ impl Engine for C13 {
             } else if roll < 93 {
                 ops.push(json!({ "op": "check", "slot": rng.below(slots) }));
             } else {
-                ops.push(json!({ "op": "call", "slot": rng.below(slots), "arg": rng.below(4) }));
+                if rng.chance(1, 3) {
+                    ops.push(json!({ "op": "force", "slot": rng.below(slots) }));
+                } else {
+                    ops.push(json!({ "op": "call", "slot": rng.below(slots), "arg": rng.below(4) }));
+                }
             }
         }
         json!({ "gc": GcPolicy::generate(rng).to_json(), "trees": trees, "ops": ops })
@@ -358,6 +364,7 @@ impl Engine for C13 {
                         encoding: enc,
                         origin,
                         callable: op["callable"].as_bool().unwrap_or(false),
+                        lazy_array: src.contains("let mk u = [lz.lazy"),
                     }));
                 }
                 "reroot" => {
@@ -395,6 +402,7 @@ impl Engine for C13 {
                                 encoding: enc2,
                                 origin: slot.origin,
                                 callable: slot.callable,
+                                lazy_array: slot.lazy_array,
                             };
                             log.push(format!("reroot slot {} -> vm{} t{}", s, v, t));
                             world.slots.push(Some(new));
@@ -447,7 +455,7 @@ impl Engine for C13 {
                             }
                             let origin = world.slots.len();
                             world.origin_vm.insert(origin, v);
-                            world.slots.push(Some(Slot { vm: v, t, value: g, encoding: ge, origin, callable: false }));
+                            world.slots.push(Some(Slot { vm: v, t, value: g, encoding: ge, origin, callable: false, lazy_array: false }));
                         }
                         (Ok(_), Err(e)) => {
                             return Err(Violation::new(
@@ -516,6 +524,57 @@ impl Engine for C13 {
                                 "copy-changed",
                                 format!("the value in slot {} (vm{} t{}) changed: was `{}` now `{}`", s, slot.vm, slot.t, clip(&slot.encoding), clip(&enc)),
                             ));
+                        }
+                    }
+                }
+                "force" => {
+                    // lazy values that crossed heaps unevaluated are forced on the side that holds
+                    // them now: the result has to end up in the holder's heap (walker below)
+                    let s = op["slot"].as_u64().unwrap_or(0) as usize;
+                    let mut forced_slot: Option<usize> = None;
+                    if let Some(Some(slot)) = world.slots.get(s) {
+                        if slot.lazy_array {
+                            let thread = slot.value.vm().clone();
+                            let fsrc = format!("{}{}(\\a -> [lz.force (array.index a 0), lz.force (array.index a 1), lz.force (array.index a 0)])\n", gen::PREAMBLE, EXTRA);
+                            if let Ok((f, _)) = thread.run_expr::<OpaqueValue<RootedThread, Hole>>(&format!("force{}", i), &fsrc) {
+                                let mut f: OwnedFunction<fn(OpaqueValue<RootedThread, Hole>) -> OpaqueValue<RootedThread, Hole>> =
+                                    Getable::from_value(&thread, f.get_variant());
+                                let r = match f.call(OpaqueValue::from_value(slot.value.clone())) {
+                                    Ok(v) => format!("OK {}", v.get_variant().verif_encode_graph()),
+                                    Err(e) => format!("ERR {}", e.to_string().lines().next().unwrap_or("")),
+                                };
+                                run::count("lazies_forced_after_transfer", 1);
+                                forced_slot = Some(s);
+                                let key = (slot.origin, -1);
+                                match world.call_results.get(&key) {
+                                    Some(expected) if *expected != r => {
+                                        return Err(Violation::new(
+                                            "closure-result-differs",
+                                            format!("forcing the lazies of the copy in slot {} gave `{}`, the original family gave `{}`", s, clip(&r), clip(expected)),
+                                        ));
+                                    }
+                                    Some(_) => {}
+                                    None => {
+                                        world.call_results.insert(key, r);
+                                    }
+                                }
+                            }
+                        }
+                    }
+                    // forcing changed the copy itself (thunks became values): that is its state now
+                    // (within one VM a "copy" made for a thread that may share the owner's values is
+                    // the same object, and derived values (pairs made by `pusharg`) contain it: every slot of that VM is re-encoded; copies in another
+                    // VM are independent and keep their recorded encoding)
+                    if let Some(fs) = forced_slot {
+                        let (fvm, forigin) = match world.slots.get(fs) {
+                            Some(Some(slot)) => (slot.vm, slot.origin),
+                            _ => (usize::MAX, usize::MAX),
+                        };
+                        for slot in world.slots.iter_mut().flatten() {
+                            let _ = forigin;
+                            if slot.vm == fvm {
+                                slot.encoding = slot.value.get_variant().verif_encode_graph();
+                            }
                         }
                     }
                 }
